@@ -220,6 +220,15 @@ def gen_run(r, i, tier):
         cfg.update(target_efficiency=(0.2, 0.8), target_efficiency_rate=float(r.choice([1.0, 2.0])))
     elif mode == "peaked":
         cfg.update(like_width=float(10 ** r.uniform(-5, -2)), n_samples=12)
+    # option combinations, not only single options: a ramped target and a very peaked likelihood go with every schedule mode
+    # (forced steps with a collapsed ESS, low-efficiency iterations under a ramp, ...)
+    if mode != "ramp" and r.random() < 0.4:
+        cfg.update(target_efficiency=(float(r.choice([0.1, 0.2, 0.4])), float(r.choice([0.6, 0.8, 0.95]))),
+                   target_efficiency_rate=float(r.choice([0.25, 1.0, 2.0, 3.0])))
+        cfg["ramp_too"] = True
+    if mode not in ("peaked",) and r.random() < 0.25:
+        cfg.update(like_width=float(10 ** r.uniform(-4, -1.5)))
+        cfg["peaked_too"] = True
     if r.random() < 0.3:
         cfg["n_final_samples"] = int(cfg["n_samples"] * r.choice([0.5, 2]))
     cfg["mode"] = mode
